@@ -16,12 +16,12 @@ import (
 
 // Lie kinds for filter data at one height.
 const (
-	lieNone      = iota
-	lieHashOnly  // cfheaders/cfcheckpt carry a wrong filter hash; the filter served is the true one (does not hash to the advertised value)
-	lieOmit      // serves (consistently) a filter that omits an output script of the block
-	lieNoServe   // wrong filter hash, never serves the filter
-	lieExtra     // serves (consistently) a filter with an extra element: not refutable from the block
-	lieOpReturn  // serves (consistently) a filter that also contains the block's OP_RETURN script
+	lieNone     = iota
+	lieHashOnly // cfheaders/cfcheckpt carry a wrong filter hash; the filter served is the true one (does not hash to the advertised value)
+	lieOmit     // serves (consistently) a filter that omits an output script of the block
+	lieNoServe  // wrong filter hash, never serves the filter
+	lieExtra    // serves (consistently) a filter with an extra element: not refutable from the block
+	lieOpReturn // serves (consistently) a filter that also contains the block's OP_RETURN script
 	numLieKinds
 )
 
@@ -29,16 +29,16 @@ var lieNames = []string{"none", "hash-only", "omit", "no-serve", "extra", "op-re
 
 // Block lie kinds for getdata(block) answers.
 const (
-	blkHonest = iota
-	blkOther         // another block of the chain
-	blkMutatedTx     // a transaction output value changed (merkle mismatch)
-	blkExtraTx       // a transaction appended (merkle mismatch)
-	blkRemovedTx     // last transaction removed (merkle mismatch)
-	blkDupTx         // last transaction duplicated (merkle root unchanged for odd counts: CVE-2012-2459 shape)
-	blkStripWitness  // witness data stripped from the non-coinbase transactions
-	blkForgedCommit  // coinbase witness commitment altered together with... nothing (merkle mismatch) or witness nonce changed (commitment mismatch)
-	blkBadWitness    // a witness item changed: txids and merkle root unchanged, commitment no longer matches
-	blkSilent        // no answer
+	blkHonest       = iota
+	blkOther        // another block of the chain
+	blkMutatedTx    // a transaction output value changed (merkle mismatch)
+	blkExtraTx      // a transaction appended (merkle mismatch)
+	blkRemovedTx    // last transaction removed (merkle mismatch)
+	blkDupTx        // last transaction duplicated (merkle root unchanged for odd counts: CVE-2012-2459 shape)
+	blkStripWitness // witness data stripped from the non-coinbase transactions
+	blkForgedCommit // coinbase witness commitment altered together with... nothing (merkle mismatch) or witness nonce changed (commitment mismatch)
+	blkBadWitness   // a witness item changed: txids and merkle root unchanged, commitment no longer matches
+	blkSilent       // no answer
 	numBlkKinds
 )
 
@@ -48,16 +48,16 @@ var blkNames = []string{"honest", "other-block", "mutated-tx", "extra-tx", "remo
 // Behaviour is a peer's behaviour program, drawn per run from the tape.
 type Behaviour struct {
 	// Transport/liveness.
-	BaseLatency  time.Duration // added to every answer
-	Jitter       time.Duration // plus a tape-drawn share of this
-	DropPct      int           // chance (percent) that an answer is omitted
-	DupPct       int           // chance that an answer is sent twice
-	StallPct     int           // chance that an answer is delayed by StallFor
-	StallFor     time.Duration
-	SilentAfter  int // stops answering anything (also pings) after this many received messages (0 = never)
-	CloseAfter   int // closes the connection after this many received messages (0 = never)
-	NoPong       bool
-	AnnounceTx   bool // sends a tx inv right after the handshake
+	BaseLatency time.Duration // added to every answer
+	Jitter      time.Duration // plus a tape-drawn share of this
+	DropPct     int           // chance (percent) that an answer is omitted
+	DupPct      int           // chance that an answer is sent twice
+	StallPct    int           // chance that an answer is delayed by StallFor
+	StallFor    time.Duration
+	SilentAfter int // stops answering anything (also pings) after this many received messages (0 = never)
+	CloseAfter  int // closes the connection after this many received messages (0 = never)
+	NoPong      bool
+	AnnounceTx  bool // sends a tx inv right after the handshake
 
 	// Headers.
 	MaxHeaders int // max headers per message (0 = 2000)
@@ -77,11 +77,11 @@ type Behaviour struct {
 	NoCF bool
 
 	// Blocks.
-	BlockLie map[chainhash.Hash]int
+	BlockLie    map[chainhash.Hash]int
 	BlockLieAll int // applies to every block request when != 0
 
 	// Tx relay: what to do with a tx inv from the client.
-	TxMode int // 0 getdata then accept silently, 1 getdata then reject, 2 ignore inv, 3 reject without getdata
+	TxMode       int // 0 getdata then accept silently, 1 getdata then reject, 2 ignore inv, 3 reject without getdata
 	RejectCode   wire.RejectCode
 	RejectReason string
 }
@@ -105,11 +105,11 @@ type SimPeer struct {
 	beh         *Behaviour
 	role        string // "honest", "lagging", "header-liar", "cf-liar", ...
 
-	conn    *simConn
-	par     *parser
-	shook   bool
-	recvd   int
-	silent  bool
+	conn   *simConn
+	par    *parser
+	shook  bool
+	recvd  int
+	silent bool
 	// wire log for oracles
 	gotGetHeaders int
 	gotGetData    []chainhash.Hash
